@@ -172,6 +172,7 @@ struct Req
     u64 arg2 = 0;
     bool via_const_view = false; // read-only ops: go through View<const Byte> obtained from the mutable view by conversion
     bool entry_to_const = false; // every entry on the path is converted entry<Byte> -> entry<const Byte> before use (read-only ops)
+    int ctor = 0; // how the message view comes to be: 0 View{p,n}; 1 sbepp::make_view<View>(p,n); 2 sbepp::make_const_view<View>(p,n) (read-only routes)
     const std::vector<Decision>* script = nullptr;
     long long stop_at = -1; // M_VISIT_FULL: callback number that returns true (1-based), -1 never
     const void* tree = nullptr; // M_ENCODE: const Node*
